@@ -725,6 +725,12 @@ class TrajectoryStore:
                     'All trajectories in a TrajectoryStore must have the same '
                     'data fields'
                 )
+        elif self.nc_linked and set(trajectory._fieldsets) != set(self._nc.keys()):
+            # Nothing cached to compare with (e.g. a fresh append session):
+            # compare with the field sets of the files.
+            raise ValueError(
+                'All trajectories in a TrajectoryStore must have the same data fields'
+            )
 
         # Check required values before changing anything, so that a rejected
         # trajectory leaves the store as it was.
